@@ -592,6 +592,17 @@ let handle (r : reader) : unit =
       (match sky_read s with
        | SkyOk (d, _, _, _) -> out_s "OK"; out_n d
        | SkyErr e -> out_s ("ERR " ^ ferr_name e))
+  | "MSETP" ->
+      (* MSETP n128 k (id status depth ranges)* idx -> the idx-th file (from 0) the temporary file of a purge goes
+         through (three per kept entry); idx = -1: the complete temporary file *)
+      let n128 = next_n r in
+      let ent r = let id = next_n r in let s0 = status_of (next r) in let d = next_n r in let l = next_ranges r in
+                  { e_st = s0; e_id = id; e_moc = (d, l) } in
+      let ents = next_list r ent in
+      let idx = next_int r in
+      let files = purge_tmp_files n128 ents in
+      out_s "OK";
+      if idx < 0 then out_hex (file_bytes n128 (kept_of ents)) else out_hex (List.nth files idx)
   | "HIST" -> handle_hist r
   | "MSET" -> handle_mset r
   | "TEXTV" ->
